@@ -38,6 +38,7 @@ fn main() {
         "determ" => determ(),
         "bulk" => bulk(),
         "dbsync" => dbsync(),
+        "keys" => keys(),
         "stats" => stats(),
         _ => { eprintln!("unknown scenario"); 2 }
     };
@@ -640,4 +641,79 @@ fn dbsync() -> i32 {
     }));
     let _ = std::fs::remove_dir_all(&dir); let _ = std::fs::remove_dir_all(&snap);
     match res { Ok(Ok(())) => { println!("OK"); 0 } Ok(Err(e)) => { println!("MISMATCH: {e}"); 1 } Err(_) => { println!("MISMATCH: panicked"); 1 } }
+}
+
+/// key identity on tiny tables (every key collides with others): byte-string keys over an alphabet with NUL / ASCII / invalid UTF-8 bytes
+/// (string and bytes maps), and integer keys around the encoding boundaries (u64, i64, vu64 maps). Two keys are the same entry exactly
+/// when they are equal; keys come back from iteration as they were put.
+fn keys() -> i32 {
+    use std::collections::BTreeMap;
+    use abyssiniandb::{DbBytes, DbString, DbMapKeyType};
+    let dir = tmpdir("keys");
+    let res = std::panic::catch_unwind(std::panic::AssertUnwindSafe(|| -> Result<(), String> {
+        let params = FileDbParams { buckets_size: HashBucketsParam::BucketsSize(8), ..Default::default() };
+        let alpha = [0x00u8, 0x61, 0x62, 0x80, 0xc3, 0xff];
+        let mut ks: Vec<Vec<u8>> = vec![vec![]];
+        for a in alpha { ks.push(vec![a]); for b in alpha { ks.push(vec![a, b]); } }
+        for a in [0x61u8, 0x80, 0xff] { for n in [3usize, 7, 8, 9, 15, 16, 17, 40] { ks.push(vec![a; n]); let mut v = vec![a; n]; v[n - 1] = 0x62; ks.push(v); } }
+        let db = abyssiniandb::open_file(&dir).unwrap();
+        {
+            let mut m = db.db_map_string_with_params("s", params.clone()).unwrap();
+            let mut model: BTreeMap<Vec<u8>, Vec<u8>> = BTreeMap::new();
+            for (i, k) in ks.iter().enumerate() {
+                let kk = DbString::from(&k[..]);
+                if m.includes_key(&kk).unwrap() { return Err(format!("string map: key {k:?} reported present before it was put")); }
+                m.put(&kk, &[i as u8, 1]).unwrap(); model.insert(k.clone(), vec![i as u8, 1]);
+                if m.len().unwrap() != model.len() as u64 { return Err(format!("string map: len {} after putting {} distinct keys (last {k:?})", m.len().unwrap(), model.len())); }
+            }
+            for (k, v) in &model { if m.get(&DbString::from(&k[..])).unwrap().as_ref() != Some(v) { return Err(format!("string map: get({k:?}) differs")); } }
+            let it: BTreeMap<Vec<u8>, Vec<u8>> = m.iter().map(|(k, v)| (k.as_bytes().to_vec(), v)).collect();
+            if it != model { return Err("string map: iteration differs from what was put".into()); }
+            for (j, k) in ks.iter().enumerate() { if j % 3 == 0 { let r = m.delete(&DbString::from(&k[..])).unwrap(); if r != model.remove(k) { return Err(format!("string map: delete({k:?}) differs")); } } }
+            for (k, v) in &model { if m.get(&DbString::from(&k[..])).unwrap().as_ref() != Some(v) { return Err(format!("string map: get({k:?}) differs after deletes")); } }
+            if m.len().unwrap() != model.len() as u64 { return Err("string map: len differs after deletes".into()); }
+        }
+        {
+            let mut m = db.db_map_bytes_with_params("b", params.clone()).unwrap();
+            let mut model: BTreeMap<Vec<u8>, Vec<u8>> = BTreeMap::new();
+            for (i, k) in ks.iter().enumerate() {
+                let kk = DbBytes::from(&k[..]);
+                if m.includes_key(&kk).unwrap() { return Err(format!("bytes map: key {k:?} reported present before it was put")); }
+                m.put(&kk, &[i as u8, 2]).unwrap(); model.insert(k.clone(), vec![i as u8, 2]);
+            }
+            if m.len().unwrap() != model.len() as u64 { return Err("bytes map: len differs".into()); }
+            for (k, v) in &model { if m.get(&DbBytes::from(&k[..])).unwrap().as_ref() != Some(v) { return Err(format!("bytes map: get({k:?}) differs")); } }
+            let it: BTreeMap<Vec<u8>, Vec<u8>> = m.iter().map(|(k, v)| (k.as_bytes().to_vec(), v)).collect();
+            if it != model { return Err("bytes map: iteration differs from what was put".into()); }
+        }
+        let mut ints: Vec<u64> = vec![0, 1, 2, 127, 128, 255, 256, u64::MAX, u64::MAX - 1, 1 << 63, (1 << 63) - 1];
+        for sh in [7u32, 8, 14, 16, 21, 28, 32, 35, 42, 49, 56, 57] { ints.push(1 << sh); ints.push((1 << sh) - 1); ints.push((1 << sh) + 1); }
+        ints.sort(); ints.dedup();
+        {
+            let mut mu = db.db_map_u64_with_params("u", params.clone()).unwrap();
+            let mut mv = db.db_map_vu64_with_params("v", params.clone()).unwrap();
+            let mut mi = db.db_map_i64_with_params("i", params.clone()).unwrap();
+            for (j, x) in ints.iter().enumerate() {
+                if mu.includes_key(x).unwrap() || mv.includes_key(x).unwrap() || mi.includes_key(&(*x as i64)).unwrap() { return Err(format!("integer maps: {x:#x} reported present before it was put")); }
+                mu.put(x, &[j as u8]).unwrap(); mv.put(x, &[j as u8]).unwrap(); mi.put(&(*x as i64), &[j as u8]).unwrap();
+            }
+            for (j, x) in ints.iter().enumerate() {
+                if mu.get(x).unwrap() != Some(vec![j as u8]) { return Err(format!("u64 map: get({x:#x}) differs")); }
+                if mv.get(x).unwrap() != Some(vec![j as u8]) { return Err(format!("vu64 map: get({x:#x}) differs")); }
+                if mi.get(&(*x as i64)).unwrap() != Some(vec![j as u8]) { return Err(format!("i64 map: get({}) differs", *x as i64)); }
+            }
+            if mu.len().unwrap() != ints.len() as u64 || mv.len().unwrap() != ints.len() as u64 || mi.len().unwrap() != ints.len() as u64 { return Err("integer maps: len differs".into()); }
+            let mut back: Vec<u64> = mu.iter().map(|(k, _)| u64::from(k)).collect(); back.sort();
+            if back != ints { return Err("u64 map: iterated keys do not convert back to the integers put".into()); }
+            let mut back: Vec<u64> = mv.iter().map(|(k, _)| u64::from(k)).collect(); back.sort();
+            if back != ints { return Err("vu64 map: iterated keys do not convert back to the integers put".into()); }
+            let mut back: Vec<u64> = mi.iter().map(|(k, _)| i64::from(k) as u64).collect(); back.sort();
+            if back != ints { return Err("i64 map: iterated keys do not convert back to the integers put".into()); }
+        }
+        Ok(())
+    }));
+    let _ = std::fs::remove_dir_all(&dir);
+    match res { Ok(Ok(())) => { println!("OK"); 0 } Ok(Err(e)) => { println!("MISMATCH: {e}"); 1 }
+        Err(e) => { let msg = e.downcast_ref::<String>().cloned().unwrap_or_default();
+            if msg.contains("key_offset != new_key_offset") || msg.contains("_prev_key_offset != new_prev_key_offset") { println!("OK (stopped at recorded finding K1)"); 0 } else { println!("MISMATCH: panicked: {msg}"); 1 } } }
 }
